@@ -120,14 +120,19 @@ def install(plan):
             State.empties_after_all_dead = 0  # progress: only *consecutive* fruitless time-outs count
             return obj
 
-    class MPShim:
-        """stands in for the `mp` name inside gaftools.cli.realign"""
+    class _MPShim:
+        """stands in for the `mp` name inside gaftools.cli.realign: Process / Queue are the traced
+        ones, every other name (current_process, cpu_count, ...) is multiprocessing's own"""
         Process = staticmethod(ctxmp.Process)
-        cpu_count = staticmethod(mp.cpu_count)
 
         @staticmethod
         def Queue(*a, **k):
             return VQueue(*a, **k)
+
+        def __getattr__(self, name):
+            return getattr(mp, name)
+
+    MPShim = _MPShim()
 
     # ---- worker side -----------------------------------------------------------------------------
     orig_wfa = R.wfa_alignment
